@@ -52,6 +52,9 @@ pub enum Mode {
         /// fault: the consumer of the results goes away after dispatcher 0 handed over this many frames
         #[serde(default)]
         consumer_gone_after: Option<usize>,
+        /// fault: shutdown() from another thread after this many yields, racing the dispatchers
+        #[serde(default)]
+        shutdown_after_yields: Option<usize>,
     },
     Affinity {
         kind: PoolKind,
@@ -229,7 +232,12 @@ fn check_accounting(cfg: &PoolCfg, dispatchers: &[Vec<Item>], out: &pool::ExecOu
     };
     // fault relaxation, narrow: once the consumer of results is gone nothing can be observed of the analysis,
     // and workers stop at their next result; what remains decidable is that the counters match the outcomes
-    let observe_results = !out.consumer_gone;
+    // The same goes for a shutdown() that races the dispatchers (the statement is about dispatching before
+    // shutdown): what a queued packet's fate is then is not promised, and a dispatch refused because of the flag
+    // is not counted; what must still hold is the safety half - a packet reported dropped is never analysed, and
+    // nothing is analysed more often than it was queued.
+    let observe_results = !out.consumer_gone && !out.shutdown_raced;
+    let observe_stats = !out.shutdown_raced;
     let mut got_id: BTreeMap<String, usize> = BTreeMap::new();
     for r in &out.results {
         for o in r {
@@ -259,6 +267,9 @@ fn check_accounting(cfg: &PoolCfg, dispatchers: &[Vec<Item>], out: &pool::ExecOu
     }
     if kind != PoolKind::Tls && out.results.len() != expect_count && observe_results {
         return Err(Violation::new(if out.results.len() < expect_count { "queued-but-not-analysed" } else { "analysed-more-than-once" }, key, format!("{} frames were queued and analysable but {} results (empty ones included) were received", expect_count, out.results.len())));
+    }
+    if !observe_stats {
+        return Ok(());
     }
     // ---- statistics agree with the outcomes
     let s = &out.stats_after;
@@ -467,13 +478,15 @@ impl Prop for C18 {
         let stats_calls = r.urange(0, 4);
         // fault, one scenario in six: the consumer of results goes away in the middle of dispatching
         let consumer_gone_after = if r.chance(1, 6) { Some(r.usize_below(per + 1)) } else { None };
-        Scn { mode: Mode::Accounting { cfg, dispatchers, schedules, iters, sched, stats_calls, consumer_gone_after } }
+        // fault, one scenario in eight (never together with the other): shutdown() races the dispatchers
+        let shutdown_after_yields = if consumer_gone_after.is_none() && r.chance(1, 8) { Some(r.usize_below(3 * per + 2)) } else { None };
+        Scn { mode: Mode::Accounting { cfg, dispatchers, schedules, iters, sched, stats_calls, consumer_gone_after, shutdown_after_yields } }
     }
 
     fn run(s: &Scn, st: &mut RunStats) -> Result<(), Violation> {
         match &s.mode {
-            Mode::Accounting { cfg, dispatchers, schedules, iters, sched, stats_calls, consumer_gone_after } => {
-                let plan = Arc::new(ExecPlan { via_analyzer: false, cfg: cfg.clone(), dispatchers: dispatchers.iter().map(|d| d.iter().map(|i| i.frame.clone()).collect()).collect(), stats_calls: *stats_calls, wait_for: Some(expected_wait(cfg, dispatchers)), consumer_gone_after: *consumer_gone_after });
+            Mode::Accounting { cfg, dispatchers, schedules, iters, sched, stats_calls, consumer_gone_after, shutdown_after_yields } => {
+                let plan = Arc::new(ExecPlan { via_analyzer: false, cfg: cfg.clone(), dispatchers: dispatchers.iter().map(|d| d.iter().map(|i| i.frame.clone()).collect()).collect(), stats_calls: *stats_calls, wait_for: Some(expected_wait(cfg, dispatchers)), consumer_gone_after: *consumer_gone_after, shutdown_after_yields: *shutdown_after_yields });
                 st.evals = 0;
                 let mut seen_q = false;
                 let mut seen_d = false;
@@ -491,6 +504,9 @@ impl Prop for C18 {
                     seen_d |= out.outcomes.iter().flatten().any(|q| !*q);
                     if out.consumer_gone {
                         st.fault("result_consumer_gone");
+                    }
+                    if out.shutdown_raced {
+                        st.fault("shutdown_races_dispatch");
                     }
                     check_accounting(cfg, dispatchers, &out, st)?;
                   }
@@ -607,34 +623,34 @@ fn shrink_impl(s: &Scn) -> Vec<Scn> {
     {
         let mut out = vec![];
         match &s.mode {
-            Mode::Accounting { cfg, dispatchers, schedules, iters, sched, stats_calls, consumer_gone_after } => {
+            Mode::Accounting { cfg, dispatchers, schedules, iters, sched, stats_calls, consumer_gone_after, shutdown_after_yields } => {
                 let iters = *iters;
                 if schedules.len() > 1 {
                     for sd in schedules {
-                        out.push(Scn { mode: Mode::Accounting { cfg: cfg.clone(), dispatchers: dispatchers.clone(), schedules: vec![*sd], iters, sched: *sched, stats_calls: *stats_calls, consumer_gone_after: *consumer_gone_after } });
+                        out.push(Scn { mode: Mode::Accounting { cfg: cfg.clone(), dispatchers: dispatchers.clone(), schedules: vec![*sd], iters, sched: *sched, stats_calls: *stats_calls, consumer_gone_after: *consumer_gone_after, shutdown_after_yields: *shutdown_after_yields } });
                     }
                 }
                 if dispatchers.len() > 1 {
                     for i in 0..dispatchers.len() {
                         let mut d = dispatchers.clone();
                         d.remove(i);
-                        out.push(Scn { mode: Mode::Accounting { cfg: cfg.clone(), dispatchers: d, schedules: schedules.clone(), iters, sched: *sched, stats_calls: *stats_calls, consumer_gone_after: *consumer_gone_after } });
+                        out.push(Scn { mode: Mode::Accounting { cfg: cfg.clone(), dispatchers: d, schedules: schedules.clone(), iters, sched: *sched, stats_calls: *stats_calls, consumer_gone_after: *consumer_gone_after, shutdown_after_yields: *shutdown_after_yields } });
                     }
                 }
                 for i in 0..dispatchers.len() {
                     for k in (0..dispatchers[i].len()).rev() {
                         let mut d = dispatchers.clone();
                         d[i].remove(k);
-                        out.push(Scn { mode: Mode::Accounting { cfg: cfg.clone(), dispatchers: d, schedules: schedules.clone(), iters, sched: *sched, stats_calls: *stats_calls, consumer_gone_after: *consumer_gone_after } });
+                        out.push(Scn { mode: Mode::Accounting { cfg: cfg.clone(), dispatchers: d, schedules: schedules.clone(), iters, sched: *sched, stats_calls: *stats_calls, consumer_gone_after: *consumer_gone_after, shutdown_after_yields: *shutdown_after_yields } });
                     }
                 }
                 if *stats_calls > 0 {
-                    out.push(Scn { mode: Mode::Accounting { cfg: cfg.clone(), dispatchers: dispatchers.clone(), schedules: schedules.clone(), iters, sched: *sched, stats_calls: 0, consumer_gone_after: *consumer_gone_after } });
+                    out.push(Scn { mode: Mode::Accounting { cfg: cfg.clone(), dispatchers: dispatchers.clone(), schedules: schedules.clone(), iters, sched: *sched, stats_calls: 0, consumer_gone_after: *consumer_gone_after, shutdown_after_yields: *shutdown_after_yields } });
                 }
                 if cfg.workers > 1 {
                     let mut c = cfg.clone();
                     c.workers -= 1;
-                    out.push(Scn { mode: Mode::Accounting { cfg: c, dispatchers: dispatchers.clone(), schedules: schedules.clone(), iters, sched: *sched, stats_calls: *stats_calls, consumer_gone_after: *consumer_gone_after } });
+                    out.push(Scn { mode: Mode::Accounting { cfg: c, dispatchers: dispatchers.clone(), schedules: schedules.clone(), iters, sched: *sched, stats_calls: *stats_calls, consumer_gone_after: *consumer_gone_after, shutdown_after_yields: *shutdown_after_yields } });
                 }
             }
             Mode::Affinity { kind, seg, variants, base_framing, must_differ_ok, all_patch, byte_variants } => {
